@@ -468,6 +468,8 @@ static void case_sweep(vh_ctx *c)
   static const AlgorithmType algo[] = { _PLS_, _MLR_, _LDA_ };
   wl_make(c, &w, learner, n, (size_t)vh_int(c, 1, 4), (size_t)vh_int(c, 1, 2), groups, iters);
   in.mx = w.mx; in.my = w.my; in.nlv = w.nlv; in.xautoscaling = 1; in.yautoscaling = 0;
+  /* the result must not depend on how many processors the machine reports either (H1): 1, 2, 3, 5 or the real count */
+  { static const size_t NP[] = { 0, 1, 2, 3, 5 }; libsci_verif_nprocs = NP[vh_int(c, 0, 4)]; vh_hist("sweep_reported_processors", (long)libsci_verif_nprocs); }
   vh_class(c, "sweep-%s-l%d-it%zu", which == 0 ? "bootstrap" : which == 1 ? "loo" : "yscrambling", learner, iters);
   vh_desc(c, "thread-count sweep: %s learner=%d objects=%zu groups=%zu iterations=%zu", which == 0 ? "BootstrapRandomGroupsCV" : which == 1 ? "LeaveOneOut" : "YScrambling", learner, n, groups, iters);
   initMatrix(&ref);
@@ -488,6 +490,7 @@ static void case_sweep(vh_ctx *c)
     if (!(d <= 1e-10 * (1.0 + matrix_maxabs(ref)))) vh_fail(c, which == 0 ? "BootstrapRandomGroupsCV|thread-count-dependence" : which == 1 ? "LeaveOneOut|thread-count-dependence" : "YScrambling|thread-count-dependence", "%zu threads vs 1: max difference %g", t, d);
     DelMatrix(&pred);
   }
+  libsci_verif_nprocs = 0;
   DelMatrix(&ref); wl_free(&w);
 }
 
@@ -550,7 +553,7 @@ static void run_routine(rt_t *a)
   }
 }
 static void *routine_thread(void *p) { run_routine((rt_t *)p); return NULL; }
-static int g_ointr_stop;
+static int g_ointr_stop; static size_t g_other_np;
 static void *other_intruder(void *a)
 {
   matrix *m; uint32_t k = 1; (void)a;
@@ -593,11 +596,13 @@ static void case_other(vh_ctx *c, long kk)
   reads0 = __atomic_load_n(&g_clock_reads, __ATOMIC_RELAXED); breaks0 = __atomic_load_n(&g_chain_breaks, __ATOMIC_RELAXED); zeros0 = __atomic_load_n(&g_zero_states, __ATOMIC_RELAXED);
   libsci_verif_rng_hook = other_hook; g_jitter = 0;
   initMatrix(&ref); a.out = ref;
+  g_other_np = (size_t)vh_int(c, 0, 3);        /* reported processors during the concurrent variants: real count, 1, 2 or 3 */
   srand_(1u);                                  /* a defined state for the calling thread */
   run_routine(&a);
   for (v = vh_is_tsan() ? 2 : 0; v < (vh_is_tsan() ? 4 : 5); v++) {    /* the race detector needs the concurrent runs only */
     matrix *out; double d; int k, conc = v >= 2;
     initMatrix(&out); a.out = out; a.nthreads = conc ? t2 : 1;
+    libsci_verif_nprocs = conc && r != R_PCARANK ? g_other_np : 0;
     if (v == 0) { srand_((uint32_t)vh_u64(c)); for (k = (int)vh_int(c, 0, 9); k > 0; k--) (void)randInt(0, 7); run_routine(&a); }      /* caller's generator elsewhere */
     else if (v == 1) { pthread_create(&th, NULL, routine_thread, &a); pthread_join(th, NULL); }                                  /* fresh thread */
     else {                                                                                                                     /* concurrency + delays */
@@ -616,7 +621,7 @@ static void case_other(vh_ctx *c, long kk)
     }
     if (conc && !first) first = out; else DelMatrix(&out);
   }
-  libsci_verif_rng_hook = NULL;
+  libsci_verif_rng_hook = NULL; libsci_verif_nprocs = 0;
   if (first) DelMatrix(&first);
   { long nr = __atomic_load_n(&g_clock_reads, __ATOMIC_RELAXED) - reads0, nb = __atomic_load_n(&g_chain_breaks, __ATOMIC_RELAXED) - breaks0, nz = __atomic_load_n(&g_zero_states, __ATOMIC_RELAXED) - zeros0;
     vh_obs("clock_reads_in_seeded_routines", (double)nr); vh_obs("zero_generator_states_met", (double)nz);
